@@ -40,11 +40,20 @@ TrTrace == /\ Ev.ev = "trace" /\ Sufficient
 TrCSum == /\ Ev.ev = "csum" /\ Sufficient
           /\ Ev.out = SumAutos(Ev.v, Ev.off, Ev.n, Ev.m, Ev.ci)
           /\ Ev.inok
+\* Average / TraceNew: every slot becomes the mean of the cnt slots congruent to it modulo 2^lb (inputs are multiples of cnt)
+RECURSIVE SumCong(_, _, _, _)
+SumCong(row, j, b, k) == IF k = 0 THEN <<0, 0>> ELSE VAdd(SumCong(row, j, b, k - 1), row[(((j - 1) % b) + (k - 1) * b) + 1], 0)
+TrAvg == /\ Ev.ev = "avg" /\ Sufficient
+         /\ LET row == Ev.v[1]  b == 2 ^ Ev.lb IN
+            \A j \in 1..Len(row) : LET s == SumCong(row, j, b, Ev.cnt) IN
+                /\ Ev.out[1][j][1] * Ev.cnt = s[1]
+                \* the full trace (depth 0) also folds X -> X^-1: the mean is projected on its real part
+                /\ Ev.out[1][j][2] * Ev.cnt = (IF Ev.op = "TraceNew" /\ Ev.lb = 0 THEN 0 ELSE s[2])
 \* documented refusals (n*batch > slots, non-positive arguments, ...): an error, not a panic
 TrRefuse == /\ Ev.ev = "refuse" /\ Ev.err /\ ~Ev.panic
 
 TraceNext == /\ l <= Len(Trace) /\ l' = l + 1
-             /\ (TrGalEl \/ TrRot \/ TrSwap \/ TrHoisted \/ TrSum \/ TrTrace \/ TrCSum \/ TrRefuse)
+             /\ (TrGalEl \/ TrRot \/ TrSwap \/ TrHoisted \/ TrSum \/ TrTrace \/ TrCSum \/ TrAvg \/ TrRefuse)
 TraceInit == l = 1 /\ TLCSet(1, 1)
 TraceSpec == TraceInit /\ [][TraceNext]_l
 Progress == TLCSet(1, IF TLCGet(1) > l THEN TLCGet(1) ELSE l)
